@@ -191,3 +191,57 @@ func VerifC03Handoff() {
 	verifCover(usedRestore, "handoff.restore")
 	verifCover(!usedRestore, "handoff.expand")
 }
+
+
+// VerifC03ChunkedExpiry: a hash with an expiry whose value the real Loader hands over in several
+// chunks (threshold lowered to a few bytes), replayed by the real RdbReplay into fakeredis in which
+// time passes between requests: afterwards the key holds every field and the snapshot's expiry, or -
+// when that expiry is already past - it is gone or about to go at once; it never stays behind without
+// an expiry.
+func VerifC03ChunkedExpiry() {
+	verifClockNs = verifNowMs * 1000000
+	n := verifRange("n", 2, 3)
+	exp := verifU64("expireAt")
+	verifAssume(verifAnd(exp > 0, exp < 1<<50))
+	body := []byte{rdb.RdbFlagExpiryMS}
+	for i := 0; i < 8; i++ {
+		body = append(body, byte(exp>>(8*uint(i))))
+	}
+	body = append(body, rdb.RdbTypeHash, 1, 'k', byte(n))
+	for i := 0; i < n; i++ {
+		body = append(body, 1, byte('a'+i), 1, byte('0'+i))
+	}
+	body = append(body, rdb.RdbFlagEOF)
+	l, restore := rdb.VerifNewLoader(body, verifRange("threshold", 1, 4))
+	defer restore()
+	f := verifNewFake()
+	f.timePasses = true
+	rr := &RdbReplay{Client: f, RedisVersion: "7.0", EnableRestore: verifChoose("restore", 2) == 1, MaxProtoBulkLen: 1 << 20, KeyExists: "replace"}
+	chunks := 0
+	for {
+		e, err := l.Next()
+		verifAssert(err == nil, "C03.chunked-expiry.loader-error")
+		if err != nil || e == nil {
+			break
+		}
+		chunks++
+		err = rr.Replay(e)
+		verifAssert(err == nil, "C03.chunked-expiry.replay-error")
+		if err != nil {
+			return
+		}
+	}
+	verifCover(chunks > 1, "chunked-expiry.split")
+	h := f.st.hash(0, "k", false)
+	past := exp <= verifNowMs+1 // (a time to live of 1 ms is "at once" as well: the key may be gone before the next chunk)
+	if past {
+		verifAssert(h == nil || (h.hasTTL && h.ttl == "1"), "C03.chunked-expiry.expired-key-stays-without-expiry")
+		verifCover(chunks > 1, "chunked-expiry.past")
+	} else {
+		verifAssert(h != nil && h.hasTTL && h.ttl == strconv.FormatUint(exp-verifNowMs, 10), "C03.chunked-expiry.expiry")
+		if h != nil {
+			verifAssert(len(h.fields) == n, "C03.chunked-expiry.fields")
+		}
+	}
+	verifReach("chunked-expiry.done")
+}
